@@ -176,6 +176,10 @@ func (opgPubKey *openpgpPubKey) ID() string {
 }
 
 func (opgPubKey *openpgpPubKey) verify(content []byte, sig *packet.Signature) error {
+	if !sig.Hash.Available() {
+		// the packet names a hash OpenPGP knows about but that is not linked in (e.g. RIPEMD160): Hash.New would panic
+		return fmt.Errorf("unsupported signature hash function #%d", sig.Hash)
+	}
 	h := sig.Hash.New()
 	h.Write(content)
 	return opgPubKey.pubKey.VerifySignature(h, sig)
